@@ -18,6 +18,13 @@ def run(ctx):
     sim = ctx.tlc("MC_VarMock", "Sim_VarMock.cfg", workers=1, timeout=600,
                   simulate="num=%d" % (300 if q else 5000), depth=13, tag="random long histories (3 vars, 2 builders)")
     behs += ctx.behaviours(sim)
+    # kept VarMock values (b.Var(&x) once, the returned value used again, also after Cancel/Reset)
+    held = {"Vias": '{"lookup", "held"}'}
+    ctx.tlc("MC_VarMock", "MC_VarMock.cfg", workers=8, timeout=900, constants=dict(held, MaxOps=6 if q else 8), tag="exhaustive with kept handles")
+    behs += ctx.behaviours(ctx.tlc("MC_VarMock", "Gen_VarMock.cfg", workers=1, timeout=900, constants=dict(held, MaxOps=depth + 1, X='{"x1"}', V='{"a", "b"}', X0="<- X0_1", Owner="<- Owner_1"),
+                                   tag="all histories with kept handles of depth %d, one variable" % (depth + 1)))
+    behs += ctx.behaviours(ctx.tlc("MC_VarMock", "Sim_VarMock.cfg", workers=1, timeout=600, constants=held,
+                                   simulate="num=%d" % (150 if q else 3000), depth=13, tag="random long histories with kept handles"))
     if not behs:
         raise vlib.Broken("no behaviours generated")
     replay_family(ctx, "var", behs, exhaustive_depth=depth)
